@@ -36,13 +36,18 @@ from __future__ import annotations
 import collections
 import collections.abc
 import copy
+import io
 import logging
 import sys
 import threading
 from datetime import datetime as _real_datetime
 
 from rv import sched as _sched
-from rv.locks import DetectingLock, WouldHang
+from rv.locks import DetectingLock, WouldHang, _instance_fields
+
+def n_odd_call_of(c):
+    return sum(1 for e in c["events"] if e[0] == "dig" and e[2][1] == "odd")
+
 
 TYPES = ["MISFOLDED_PROTEIN", "EXPIRED_CACHE", "FAILED_OPERATION", "ORPHANED_RESOURCE", "TOXIC_BYPRODUCT"]
 TOXIC = 4
@@ -121,8 +126,19 @@ def _as_wastes(v, W):
     return seq
 
 
+def _fields(obj):
+    """(name, value) of every instance field: ordinary attributes and __slots__ alike"""
+    return list(_instance_fields(obj))
+
+
 def _is_helper(v):
-    return type(v).__module__.startswith("operon_ai") and hasattr(v, "__dict__") and not isinstance(v, type)
+    """an object of the library that the instance may keep part of its state in (ordinary or slotted)"""
+    t = type(v)
+    if not (getattr(t, "__module__", "") or "").startswith("operon_ai") or isinstance(v, (type, BaseException)):
+        return False
+    if isinstance(v, _waste_class()) or isinstance(v, __import__("enum").Enum):
+        return False
+    return hasattr(v, "__dict__") or any("__slots__" in k.__dict__ for k in t.__mro__[:-1])
 
 
 def _follow(obj, path):
@@ -131,18 +147,27 @@ def _follow(obj, path):
     return obj
 
 
-def _discover_queue_paths(lys, W):
-    """attribute paths (on the instance, or one level down in an operon_ai helper object it owns) of every NON-EMPTY
-    container that holds wastes only"""
+def _holds_wastes(v, W):
+    return (isinstance(v, _SEQ_TYPES) or isinstance(v, dict)) and bool(v) and bool(_as_wastes(v, W))
+
+
+def _discover_queue_paths(lys, W, depth=2):
+    """attribute paths (on the instance, or up to `depth` levels down in operon_ai helper objects it owns, slotted or not) of
+    every NON-EMPTY container that holds wastes only"""
     paths = []
-    for k, v in list(vars(lys).items()):
-        if isinstance(v, _SEQ_TYPES) or isinstance(v, dict):
-            if v and _as_wastes(v, W):
-                paths.append((k,))
-        elif _is_helper(v):
-            for k2, v2 in list(vars(v).items()):
-                if (isinstance(v2, _SEQ_TYPES) or isinstance(v2, dict)) and v2 and _as_wastes(v2, W):
-                    paths.append((k, k2))
+    seen = set()
+
+    def walk(obj, prefix, d):
+        if id(obj) in seen:
+            return
+        seen.add(id(obj))
+        for k, v in _fields(obj):
+            if isinstance(v, _SEQ_TYPES) or isinstance(v, dict):
+                if _holds_wastes(v, W):
+                    paths.append(prefix + (k,))
+            elif d > 0 and _is_helper(v):
+                walk(v, prefix + (k,), d - 1)
+    walk(lys, (), depth)
     return paths
 
 
@@ -195,8 +220,12 @@ def queue_len(lys, stats_getter=None):
 
 
 def _digester_table(lys, WT):
-    """the instance attribute that maps every WasteType to a callable, found by shape"""
-    for v in vars(lys).values():
+    """the attribute (of the instance or of a helper object it owns) that maps every WasteType to a callable, found by shape"""
+    cands = [v for _k, v in _fields(lys)]
+    for v in list(cands):
+        if _is_helper(v):
+            cands += [v2 for _k2, v2 in _fields(v)]
+    for v in cands:
         if isinstance(v, collections.abc.MutableMapping) and len(v) >= len(WT):
             try:
                 if all(callable(v[wt]) for wt in WT):
@@ -423,18 +452,23 @@ def _static_names(holder):
     return hit[1]
 
 
-def lock_slots(obj, module, prefix="Lysosome"):
-    """(holder, attribute, display name) of every raw Lock/RLock reachable from `obj`: instance attributes, attributes of
-    helper objects (instances of operon_ai classes) it owns, class attributes along the MRO, globals of `module`."""
+def lock_slots(obj, module, prefix="Lysosome", depth=2):
+    """(holder, attribute, display name) of every raw Lock/RLock/Semaphore reachable from `obj`: instance fields (ordinary or
+    __slots__), fields of helper objects (instances of operon_ai classes, up to `depth` levels down) it owns, class attributes
+    along the MRO, globals of `module`."""
     out = []
-    for k, v in list(vars(obj).items()):
-        tv = type(v)
-        if tv in LOCK_TYPES or isinstance(v, threading.Semaphore):
-            out.append((obj, k, "%s.%s" % (prefix, k)))
-        elif tv.__module__.startswith("operon_ai") and hasattr(v, "__dict__") and not isinstance(v, type):
-            for k2, v2 in list(vars(v).items()):
-                if _is_raw_lock(v2):
-                    out.append((v, k2, "%s.%s.%s" % (prefix, k, k2)))
+    seen = set()
+
+    def walk(o, pre, d):
+        if id(o) in seen:
+            return
+        seen.add(id(o))
+        for k, v in _fields(o):
+            if _is_raw_lock(v):
+                out.append((o, k, "%s.%s" % (pre, k)))
+            elif d > 0 and _is_helper(v):
+                walk(v, "%s.%s" % (pre, k), d - 1)
+    walk(obj, prefix, depth)
     for klass in type(obj).__mro__[:-1]:
         for k in _static_names(klass):
             out.append((klass, k, "%s.%s(class)" % (klass.__name__, k)))
@@ -442,6 +476,77 @@ def lock_slots(obj, module, prefix="Lysosome"):
         for k in _static_names(module):
             out.append((module, k, "%s.%s" % (module.__name__.rsplit(".", 1)[-1], k)))
     return out
+
+
+def _has_raw_lock(obj, depth=2):
+    """cheap test run at the start of every call: does a raw (unwrapped) primitive sit in a field of the instance / its helpers?"""
+    for _k, v in _fields(obj):
+        if _is_raw_lock(v):
+            return True
+        if depth > 0 and _is_helper(v) and _has_raw_lock(v, depth - 1):
+            return True
+    return False
+
+
+# ---- a lock that the object itself REPLACES mid-call must stay observable: the class of every lock-holding object gets, per lock
+# field, a property whose setter wraps a raw primitive on the way in (no name is spelled out: the fields are the ones found by shape)
+_guard_cache = {}       # (class, (field, ...)) -> guarded subclass
+_HOLDER_RIG = {}        # id(lock-holding object) -> Rig
+
+
+def _on_lock_assigned(holder, attr, v):
+    rig = _HOLDER_RIG.get(id(holder))
+    if rig is not None and _is_raw_lock(v):
+        return rig._adopt(holder, attr, v)
+    return v
+
+
+def _lock_property(base, attr):
+    desc = None
+    for k in base.__mro__:
+        if attr in k.__dict__:
+            desc = k.__dict__[attr]
+            break
+    if desc is None:        # kept in the instance __dict__
+        def get(self):
+            try:
+                return self.__dict__[attr]
+            except KeyError:
+                raise AttributeError(attr) from None
+
+        def put(self, v):
+            self.__dict__[attr] = _on_lock_assigned(self, attr, v)
+
+        def rem(self):
+            del self.__dict__[attr]
+        return property(get, put, rem)
+    if type(desc).__name__ == "member_descriptor":      # a __slots__ field
+        def get(self):
+            return desc.__get__(self, type(self))
+
+        def put(self, v):
+            desc.__set__(self, _on_lock_assigned(self, attr, v))
+
+        def rem(self):
+            desc.__delete__(self)
+        return property(get, put, rem)
+    return None             # something else (a property of the class itself, a class-level lock): left alone
+
+
+def _guarded_class(base, attrs):
+    key = (base, tuple(sorted(attrs)))
+    sub = _guard_cache.get(key)
+    if sub is None:
+        ns = {"__slots__": ()}
+        for a in key[1]:
+            pr = _lock_property(base, a)
+            if pr is not None:
+                ns[a] = pr
+        sub = type(base)(base.__name__, (base,), ns)
+        sub.__module__ = base.__module__
+        sub.__qualname__ = base.__qualname__
+        _guard_cache[key] = sub
+    return sub
 
 
 class Resource:
@@ -459,12 +564,118 @@ class Resource:
         return "Resource(%d)" % self.vid
 
 
+class _NotCallableCleanup:
+    cleanup = 5
+
+
 class StubFailure(RuntimeError):
     pass
 
 
+class ToxicCB:
+    """a user-supplied toxic callback (a callable object); `FalsyToxicCB` additionally is an empty collection (bool() is False)"""
+
+    def __init__(self, rig, label):
+        self.rig, self.label = rig, label
+
+    def __call__(self, waste):
+        return self.rig._toxic_called(self.label, waste)
+
+
+class FalsyToxicCB(ToxicCB):
+    def __len__(self):
+        return 0
+
+
+class _NullRaw(io.RawIOBase):
+    def writable(self):
+        return True
+
+    def write(self, b):
+        return len(b)
+
+
+def strict_sink():
+    """a stdout replacement that behaves like a strict UTF-8 terminal / pipe: text that cannot be encoded raises (StringIO would not)"""
+    return io.TextIOWrapper(_NullRaw(), encoding="utf-8", errors="strict", write_through=True)
+
+
+def _raise_for(vid, what):
+    """stub digester / callback failures: every exception TYPE a handler could discriminate on (chosen by item id)"""
+    from rv.faults import Unprintable
+    k = vid % 9
+    msg = "%s vid=%d" % (what, vid)
+    if k == 0:
+        raise Unprintable(msg)          # cannot even be turned into text
+    if k == 1:
+        raise StubFailure(msg)
+    if k == 2:
+        raise TypeError(msg)
+    if k == 3:
+        raise KeyError(msg)
+    if k == 4:
+        raise TimeoutError(msg)
+    if k == 5:
+        raise AssertionError(msg)
+    if k == 6:
+        raise OSError(5, msg)
+    if k == 7:
+        raise ZeroDivisionError(msg)
+    raise StopIteration(msg)
+
+
+def _failing_pairs(vid):
+    yield ("recycled_%d" % vid, vid)
+    raise StubFailure("result iterator failed vid=%d" % vid)
+
+
+def odd_result(vid, behav):
+    """digester results that are not dicts (the annotation says dict): whether such an item ends up counted or reported as a digestion
+    error is the implementation's choice - but it must be exactly one of the two"""
+    if behav == "n":
+        return None
+    if behav == "p":
+        return [("recycled_%d" % vid, vid)]
+    if behav == "g":
+        return iter([("recycled_%d" % vid, vid)])
+    if behav == "x":
+        return _failing_pairs(vid)
+    return (["ab", "cd", "efg"], "text", 7, {"xy", "zw"}, 2.5, ("abc",), b"bytes", True)[vid % 8]
+
+
+CALLED = set()          # public methods of the class under test that some session called (reported at the end of a shard)
+KWARGS = set()          # (method, keyword) pairs passed by keyword somewhere
+
+
+class _Str(str):
+    """a str subclass (names supplied by users are not always exact str)"""
+
+
+class _Sentinel:
+    """stored data that compares by identity only"""
+    __slots__ = ("tag",)
+
+    def __init__(self, tag):
+        self.tag = tag
+
+    def __repr__(self):
+        return "<sentinel %s>" % self.tag
+
+
+def _encodable(s):
+    try:
+        s.encode("utf-8")
+        return True
+    except UnicodeEncodeError:
+        return False
+
+
+HOSTILE_SOURCES = ["src {0} {name} %s %(x)s", "a\x00b", "line1\nline2\r", "[.*+?^$](|)\\", "\udc80lone", "tail\ud800", "\xe9-\xfc-\U0001f600", ""]
+ODD_BEHAV = ("m", "n", "p", "g", "x")
+
+
 class Item:
-    __slots__ = ("vid", "waste", "kind", "behav", "sensitive", "marker", "created_ts", "log", "toxic_cb", "expired", "tname", "by")
+    __slots__ = ("vid", "waste", "kind", "behav", "sensitive", "marker", "created_ts", "log", "toxic_cb", "toxic_by", "expired", "tname", "by")
 
     def __init__(self, vid, waste, kind, behav, by):
         self.vid, self.waste, self.kind, self.behav, self.by = vid, waste, kind, behav, by
@@ -472,8 +683,9 @@ class Item:
         self.sensitive = self.tname == "TOXIC_BYPRODUCT"
         self.marker = "%s-%d-K" % (MARK, vid) if self.sensitive else None
         self.created_ts = waste.created_at.timestamp()
-        self.log = []          # [path, outcome] per digester invocation
+        self.log = []          # [path, outcome, label of the toxic callback configured when the invocation started] per digester invocation
         self.toxic_cb = 0
+        self.toxic_by = []     # labels of the callbacks that were called with this item
         self.expired = False
 
 
@@ -483,7 +695,7 @@ class Rig:
         from operon_ai.organelles import lysosome as lmod
         _install_handler()
         self.lmod = lmod
-        self.cfg = cfg
+        self.cfg = cfg = dict(cfg)      # "set" operations change the CURRENT configuration; the caller's dict stays as generated
         self.clock = clock
         self.threaded = threaded
         self.WT = [getattr(lmod.WasteType, t) for t in TYPES]
@@ -495,10 +707,27 @@ class Rig:
         self.inprog = {}         # thread ident -> Item whose digester invocation is running in that thread
         self.cur = {}
         self.problems = []      # (mechanism, what)
+        self.hostile = bool(cfg.get("hostile"))
+        self.odd_known = 0       # digester invocations that returned a non-dict and were COUNTED (known from a DigestResult / a counter delta)
+        self.odd_seen = False
+        self.odd_unknown = 0     # ... whose fate could not be attributed to one call (thread mode)
+        self._sink = strict_sink()
+        self._sink_depth = 0
+        self._saved_stdout = None
+        # --- toxic callbacks: "A" (the usual one), "B" (a replacement), "F" (a callable whose bool() is False)
+        self.cbs = {"A": ToxicCB(self, "A"), "B": ToxicCB(self, "B"), "F": FalsyToxicCB(self, "F")}
+        wiring = cfg.get("toxic", "ctor")       # ctor: passed to the constructor | late: assigned after construction | falsy: "F" passed | none
+        first = {"ctor": "A", "falsy": "F"}.get(wiring)
         # --- wrap every digester. Preferred: the table found by shape on the instance (entries wrapped in place, so the shipped
         # digesters stay bound to the instance under test); otherwise through the public constructor argument.
         stub_mode = cfg.get("mode", "stub") == "stub"
-        kw = dict(max_queue_size=cfg["max"], auto_digest_threshold=cfg["th"], retention_hours=cfg["ret_h"], on_toxic=self._on_toxic, silent=True)
+        kw = dict(max_queue_size=cfg["max"], auto_digest_threshold=cfg["th"], retention_hours=cfg["ret_h"], silent=bool(cfg.get("silent", True)))
+        if cfg.get("ret_int") and float(cfg["ret_h"]).is_integer():
+            kw["retention_hours"] = int(cfg["ret_h"])
+        if first is not None:
+            kw["on_toxic"] = self.cbs[first]
+        elif cfg.get("explicit_none"):
+            kw["on_toxic"] = None
         lys = table = None
         if _wiring_cache.get(cls) != "constructor":
             lys = cls(**kw)
@@ -511,13 +740,21 @@ class Rig:
             _wiring_cache[cls] = "constructor"
             self._bump("digesters_wired_through_constructor")
             lys = cls(digesters={wt: self._make_digester(self._shipped_via_donor, stub_mode and wt is not self.WT[TOXIC]) for wt in self.WT}, **kw)
+        if wiring == "late":
+            lys.on_toxic = self.cbs["A"]
+            self._bump("on_toxic_assigned_after_construction")
         self.lys = lys
         self.unwrapped = set()
         self.slots = []          # [holder, attr, name, wrapped primitive, wrapper, original class/module-level primitive or None]
         self.locks = []
         self.lock = NoLock()
         self.lock_factory = lock_factory
+        self.guarded = []
+        self.fully_guarded = False
+        self._nfields = -1
+        self._holder_paths = []
         self.wrap_locks()
+        self.guard_lock_fields()
         self.items = []
         self.wastes = []         # every Waste object that entered, in ingestion order (twin / same-object operations pick from it)
         self.trace = []
@@ -554,10 +791,55 @@ class Rig:
                         self._bump("lock_like_left_unwrapped")
                     continue
                 setattr(holder, attr, w)
-                self.slots.append([holder, attr, name, raw, w, original])
+                prev = next((sl for sl in self.slots if sl[0] is holder and sl[1] == attr), None)
+                if prev is not None:        # the object itself put a fresh primitive into a field that was wrapped already
+                    prev[3], prev[4] = raw, w
+                    self._bump("locks_replaced_by_the_object")
+                else:
+                    self.slots.append([holder, attr, name, raw, w, original])
                 self.locks.append(w)
                 if isinstance(self.lock, NoLock):       # (instance attributes come first in lock_slots)
                     self.lock = w
+
+    def guard_lock_fields(self):
+        """every object that holds one of the wrapped instance-level locks gets setters that wrap a replacement primitive at once"""
+        by_holder = {}
+        for holder, attr, _name, _raw, _w, original in self.slots:
+            if original is None and not isinstance(holder, type) and holder is not self.lmod:
+                by_holder.setdefault(id(holder), (holder, []))[1].append(attr)
+        for holder, attrs in by_holder.values():
+            base = type(holder)
+            if getattr(base, "_rv_guard_base", None) is not None:
+                attrs = sorted(set(attrs) | set(base._rv_guard_attrs))
+                base = base._rv_guard_base
+            try:
+                sub = _guarded_class(base, attrs)
+                sub._rv_guard_base, sub._rv_guard_attrs = base, tuple(attrs)
+                if type(holder) is not sub:
+                    holder.__class__ = sub
+                _HOLDER_RIG[id(holder)] = self
+                if not any(h is holder for h in self.guarded):
+                    self.guarded.append(holder)
+                self._bump("lock_fields_guarded", len(attrs))
+            except TypeError:
+                self._bump("lock_holder_not_guardable")      # layout does not allow it: a replaced lock is then picked up at the next call only
+                return
+        self.fully_guarded = True
+        self._holder_paths = [(tuple(sl[2].split(".")[1:-1]), sl[0]) for sl in self.slots
+                              if sl[5] is None and sl[0] is not self.lys and sl[2].startswith("Lysosome.")]
+
+    def _adopt(self, holder, attr, raw):
+        """the object under test assigned a fresh primitive to one of its lock fields"""
+        slot = next((sl for sl in self.slots if sl[0] is holder and sl[1] == attr), None)
+        if slot is None:
+            return raw
+        w = self.lock_factory(raw, slot[2])
+        if w is None:
+            return raw
+        slot[3], slot[4] = raw, w
+        self.locks.append(w)
+        self._bump("locks_replaced_by_the_object")
+        return w
 
     def rewrap(self, lock_factory):
         """replace every wrapper by lock_factory(raw, name) (all locks must be free)"""
@@ -582,6 +864,11 @@ class Rig:
         for holder, attr, name, raw, w, original in self.slots:
             if original is not None:
                 setattr(holder, attr, original)
+        for holder in self.guarded:
+            _HOLDER_RIG.pop(id(holder), None)
+
+    def margin(self):
+        return min(EXPIRY_MARGIN_S, 0.02 * self.retention_s)
 
     def queue(self):
         """snapshot of the queued Waste objects (container found by shape, see queue_snapshot)"""
@@ -596,14 +883,29 @@ class Rig:
     def lock_acquisitions(self):
         return sum(l.acquisitions for l in self.locks)
 
+    def _field_count(self):
+        n = 0
+        for o in [self.lys] + self.guarded:
+            d = getattr(o, "__dict__", None)
+            n += len(d) if d is not None else 0
+        return n
+
     def _rescan(self):
         if self.unwrapped:
             return
-        for v in vars(self.lys).values():
-            if type(v) in LOCK_TYPES or isinstance(v, threading.Semaphore):
-                self.wrap_locks()
-                self._bump("late_locks_wrapped")
+        if self.fully_guarded:
+            # every lock field has a setter that wraps a replacement at once: only a NEW field can bring in a raw primitive
+            # (or a helper object that was swapped for a new one)
+            n = self._field_count()
+            if n == self._nfields and all(_follow(self.lys, path) is holder for path, holder in self._holder_paths):
                 return
+            self._nfields = n
+            self._holder_paths = []
+        if _has_raw_lock(self.lys):
+            self.wrap_locks()
+            self._bump("late_locks_wrapped")
+            self.guard_lock_fields()
+            self._nfields = self._field_count()
 
     # ------------------------------------------------------------------ observers
     def _bump(self, k, n=1):
@@ -672,12 +974,20 @@ class Rig:
             return "emergency"
         return "outside"
 
+    def _label_of(self, cb):
+        if cb is None:
+            return None
+        for lab, o in self.cbs.items():
+            if o is cb:
+                return lab
+        return "?"
+
     def _make_digester(self, shipped, use_stub):
         def digester(waste):
             c = self._ctx()
             path = self._path(c, waste)
             self._bump("digester_calls:" + path)
-            entry = [path, "?"]
+            entry = [path, "?", None]
             grp = self.by_obj.get(id(waste))
             if grp is not None and len(grp) > 1:
                 with self._alloc:
@@ -690,19 +1000,23 @@ class Rig:
             else:
                 self.problem("digester-saw-unregistered-object", "a digester was invoked with an object that never entered through ingest")
                 return shipped(waste)
+            if item.sensitive:
+                entry[2] = self._label_of(getattr(self.lys, "on_toxic", None))      # the obligation follows the CURRENT public setting
             if c is not None:
                 c["events"].append(("dig", item.vid, entry))
             me = threading.get_ident()
             outer = self.inprog.get(me)
             self.inprog[me] = item
+            odd = False
             try:
                 if use_stub:
                     if item.behav == "r":
-                        if item.vid % 3 == 0:      # an exception that cannot even be turned into text
-                            from rv.faults import Unprintable
-                            raise Unprintable("stub digester failure vid=%d" % item.vid)
-                        raise StubFailure("stub digester failure vid=%d" % item.vid)
-                    res = {"recycled_%d" % item.vid: item.vid} if item.behav == "d" else {}
+                        _raise_for(item.vid, "stub digester failure")
+                    if item.behav in ODD_BEHAV:
+                        odd = True
+                        res = odd_result(item.vid, item.behav)
+                    else:
+                        res = {"recycled_%d" % item.vid: item.vid} if item.behav == "d" else {}
                 else:
                     res = shipped(waste)
             except Exception:
@@ -711,7 +1025,9 @@ class Rig:
                 raise
             finally:
                 self.inprog[me] = outer
-            entry[1] = "ok"
+            entry[1] = "odd" if odd else "ok"
+            if odd:
+                self._bump("digester_odd_results:" + path)
             return res
         return digester
 
@@ -719,7 +1035,7 @@ class Rig:
         """the shipped digestion of one waste through PUBLIC API only (used when the instance has no digester table to wrap):
         a fresh donor instance with default digesters and the same on_toxic ingests the waste and digests it"""
         self._bump("shipped_digestions_via_donor")
-        donor = self.lmod.Lysosome(max_queue_size=1 << 30, auto_digest_threshold=1 << 30, retention_hours=1e6, on_toxic=self._on_toxic, silent=True)
+        donor = self.lmod.Lysosome(max_queue_size=1 << 30, auto_digest_threshold=1 << 30, retention_hours=1e6, on_toxic=getattr(self.lys, "on_toxic", None), silent=True)
         for holder, attr, name in lock_slots(donor, None, "donor"):
             raw = getattr(holder, attr)
             if holder is donor and not is_semaphore(raw):       # private to this call: re-acquiring a held non-reentrant lock can never succeed
@@ -734,9 +1050,10 @@ class Rig:
             raise StubFailure("donor disposed %r items" % (res.disposed,))
         return dict(res.recycled)
 
-    def _on_toxic(self, waste):
+    def _toxic_called(self, label, waste):
         grp = self.by_obj.get(id(waste))
         self._bump("toxic_callbacks")
+        self._bump("toxic_callbacks:" + label)
         if not grp:
             self.problem("digester-saw-unregistered-object", "on_toxic called with an object that never entered through ingest")
             return
@@ -746,30 +1063,39 @@ class Rig:
             cur = self.inprog.get(threading.get_ident())
             item = cur if (cur is not None and cur.waste is waste) else next((it for it in grp if it.log), grp[-1])
         item.toxic_cb += 1
+        item.toxic_by.append(label)
         if item.toxic_cb > 1:
-            self.problem("toxic-callback-repeated", "sensitive item %d reached the toxic callback %d times" % (item.vid, item.toxic_cb))
+            self.problem("toxic-callback-repeated", "sensitive item %d reached the toxic callback %d times (%s)" % (item.vid, item.toxic_cb, item.toxic_by))
         if item.behav == "r":
-            if item.vid % 3 == 1:
-                from rv.faults import Unprintable
-                raise Unprintable("on_toxic failure vid=%d" % item.vid)
-            raise StubFailure("on_toxic failure vid=%d" % item.vid)
+            _raise_for(item.vid + 1, "on_toxic failure")
 
     # ------------------------------------------------------------------ workload
     def make_waste(self, vid, ti, behav):
         W = self.lmod.Waste
         name = TYPES[ti]
+        odd = self.hostile and vid % 4 == 0      # unparsable field values inside otherwise valid payloads, duck-typed payloads
         if name == "MISFOLDED_PROTEIN":
             content = {"vid": vid, "raw_input": "raw input of %d" % vid, "error": "parse error %d" % vid}
+            if odd:
+                content = {"vid": vid, "raw_input": 10 ** 6 + vid, "error": None}
         elif name == "EXPIRED_CACHE":
             content = {"vid": vid, "cached": "value-%d" % vid}
+            if odd:      # a payload that looks like the library's own record
+                content = W(waste_type=self.WT[1], content=None, source="inner", created_at=_real_datetime.fromtimestamp(0), priority=True)
         elif name == "FAILED_OPERATION":
             content = {"vid": vid, "error_type": "E%d" % (vid % 3), "context": {"vid": vid}}
+            if odd:
+                content = [("error_type", None), vid] if vid % 8 else {"error_type": ["unhashable"], "context": None}
         elif name == "ORPHANED_RESOURCE":
             content = Resource(vid, behav == "r")
+            if odd and behav != "r":
+                content = _NotCallableCleanup()
         else:
             content = {"secret": "%s-%d-K" % (MARK, vid)}
-        return W(waste_type=self.WT[ti], content=content, source="h%d" % vid,
-                 created_at=_real_datetime.fromtimestamp(self.clock.time()), priority=vid % 3)
+            if odd:
+                content = ["%s-%d-K" % (MARK, vid), _Sentinel("%s-%d-K" % (MARK, vid))]
+        return W(waste_type=self.WT[ti], content=content, source=self._source(vid),
+                 created_at=_real_datetime.fromtimestamp(self.clock.time()), priority=(vid % 3 if not odd else bool(vid % 3)))
 
     def twin_of(self, o):
         """a distinct Waste object that compares equal to `o` (same type, source, priority, created_at, equal content / metadata)"""
@@ -792,14 +1118,103 @@ class Rig:
             self.wrap_locks(extra=[self.daemon])
         return self.daemon
 
+    def _source(self, vid):
+        if self.hostile:
+            src = HOSTILE_SOURCES[vid % len(HOSTILE_SOURCES)]
+            if (self.threaded or self.cfg.get("threads")) and not _encodable(src):
+                src = HOSTILE_SOURCES[0]        # which state a refused ingest left behind is judged per call: single-thread histories only
+            return _Str(src) if vid % 2 else src
+        return "h%d" % vid
+
+    def _stdout_enter(self):
+        with self._alloc:
+            if self._sink_depth == 0:
+                self._saved_stdout = sys.stdout
+                sys.stdout = self._sink
+            self._sink_depth += 1
+
+    def _stdout_exit(self):
+        with self._alloc:
+            self._sink_depth -= 1
+            if self._sink_depth == 0:
+                sys.stdout = self._saved_stdout
+
+    def apply_setting(self, op):
+        """a public attribute assigned mid-session; every later obligation follows the CURRENT value"""
+        lys, name, v = self.lys, op[1], op[2]
+        self._bump("settings_changed")
+        self._bump("settings_changed:" + name)
+        if name == "on_toxic":
+            lys.on_toxic = None if v is None else self.cbs[v]
+        elif name == "max":
+            v = max(2, int(v), self.qlen())      # never below what is queued right now: the bound is an obligation of the calls, not of the assignment
+            lys.max_queue_size = self.cfg["max"] = v
+        elif name == "th":
+            lys.auto_digest_threshold = self.cfg["th"] = v
+        elif name == "ret":
+            from datetime import timedelta
+            lys.retention_period = timedelta(hours=v)
+            self.cfg["ret_h"] = v
+            self.retention_s = v * 3600.0
+        elif name == "silent":
+            lys.silent = v
+            self.cfg["silent"] = v
+        else:
+            raise ValueError(name)
+        self.trace.append(["set", name, repr(v)])
+
+    def apply_read(self, op):
+        """reporting / read-only API (and clear_recycling_bin, which has no part in the accounting) anywhere in a session: must return and
+        must not change any later verdict - the audits that follow are the same as without it"""
+        lys, which = self.lys, op[1]
+        self._bump("reads")
+        called = CALLED
+        try:
+            if which == "stats":
+                called.add("get_statistics")
+                lys.get_statistics()
+            elif which == "status":
+                called.add("get_queue_status")
+                st = lys.get_queue_status()
+                if not self.threaded and sum(st["by_type"].values()) != st["size"]:
+                    self.problem("queue-status-disagrees", "get_queue_status by_type %r does not add up to size %r" % (st["by_type"], st["size"]))
+            elif which == "recycled":
+                called.add("get_recycled")
+                lys.get_recycled()
+                lys.get_recycled(None)
+            elif which == "recycled_key":
+                called.add("get_recycled")
+                KWARGS.add(("get_recycled", "key"))
+                lys.get_recycled("recycled_0")
+                lys.get_recycled(key="last_failure_context")
+            elif which == "clear_bin":
+                called.add("clear_recycling_bin")
+                lys.clear_recycling_bin()
+            elif which == "repr":
+                repr(lys)
+                str(lys)
+                bool(lys)
+            else:
+                raise ValueError(which)
+        except WouldHang:
+            raise
+        except Exception as e:
+            self.problem("raises:read", "%s raised %r" % (which, e))
+        self.trace.append(["read", which])
+
     def apply(self, op):
         """Run one operation of the history on the real object; local (per-call) obligations are judged here.
         WouldHang / SchedAbort propagate to the driver."""
         kind = op[0]
         if kind == "advance":
-            self.clock.advance(op[1])
-            self.trace.append(["advance", op[1]])
+            self.clock.advance(op[1] if not (len(op) > 2 and op[2] == "ret") else op[1] * self.retention_s)
+            self.trace.append(["advance", op[1]] + list(op[2:]))
             return None
+        if kind == "set":
+            return self.apply_setting(op)
+        if kind == "read":
+            self._rescan()
+            return self.apply_read(op)
         me = threading.get_ident()
         lys = self.lys
         c = {"kind": kind, "op": op, "tid": me, "events": [], "item": None, "vid": None, "behav": "d"}
@@ -811,22 +1226,46 @@ class Rig:
         self.last_ctx = c
         self._rescan()
         before = self.queue() if (kind == "autophagy" and not self.threaded) else None
+        if before is not None and len(before) != lys.get_statistics()["queue_size"]:
+            before = None       # the queue container is not (yet) known by shape: nothing is attributed per call
         if kind == "digest" and op[1] and not self.threaded:
             q0 = self.queue()
             if len(q0) > op[1] and any(r == b for r in q0[op[1]:] for b in q0[:op[1]]):
                 self._bump("partial_digests_splitting_equal_wastes")      # the situation in which removal by value and by position differ
+        if not self.threaded and (self.odd_seen or c["behav"] in ODD_BEHAV):
+            self.odd_seen = True
+            c["td0"] = lys.get_statistics()["total_digested"]
         now_v = self.clock.time()
         self.cur[me] = c
         self._bump("calls")
         self._bump("calls:" + kind)
         ret = None
+        verbose = not getattr(lys, "silent", True)
+        if verbose:
+            self._bump("calls_verbose")
+            self._stdout_enter()
+        vid = c["vid"]
         try:
             if kind == "ingest":
-                ret = lys.ingest(self.make_waste(c["vid"], op[1], op[2]))
+                CALLED.add("ingest")
+                ret = lys.ingest(self.make_waste(vid, op[1], op[2]))
             elif kind == "ingest_error":
-                ret = lys.ingest_error(RuntimeError("operation failed vid=%d" % c["vid"]), source="h%d" % c["vid"], context={"vid": c["vid"]})
+                CALLED.add("ingest_error")
+                form = vid % 3 if self.hostile else 0
+                if form == 0:
+                    KWARGS.update([("ingest_error", "source"), ("ingest_error", "context")])
+                    ret = lys.ingest_error(RuntimeError("operation failed vid=%d" % vid), source=self._source(vid), context={"vid": vid})
+                elif form == 1:
+                    ret = lys.ingest_error(TimeoutError())        # no message; defaults: no source, no context
+                else:
+                    ret = lys.ingest_error(KeyError(self._source(vid)), self._source(vid), None)
             elif kind == "ingest_sensitive":
-                ret = lys.ingest_sensitive("%s-%d-K" % (MARK, c["vid"]), source="h%d" % c["vid"])
+                CALLED.add("ingest_sensitive")
+                if self.hostile and vid % 4 == 3:
+                    ret = lys.ingest_sensitive(_Sentinel("%s-%d-K" % (MARK, vid)))       # compares by identity only; default source
+                else:
+                    KWARGS.add(("ingest_sensitive", "source"))
+                    ret = lys.ingest_sensitive("%s-%d-K" % (MARK, vid), source=self._source(vid))
             elif kind == "ingest_error_rep":
                 # the same failure reported again (same message, source, context) within one clock tick
                 ret = lys.ingest_error(RuntimeError("operation failed (repeated)"), source="hrep", context={"shard": 1})
@@ -836,24 +1275,40 @@ class Rig:
                 with self._alloc:
                     pool = list(self.wastes)
                 if not pool:
-                    ret = lys.ingest(self.make_waste(c["vid"], 1, op[2]))
+                    ret = lys.ingest(self.make_waste(vid, 1, op[2]))
                 else:
                     o = pool[-1 - (op[1] % len(pool))]
                     ret = lys.ingest(self.twin_of(o) if kind == "ingest_twin" else o)
             elif kind == "prune":
-                ctxt = ("useful line vid=%d\n" % c["vid"]) * 6
+                ctxt = ("useful line vid=%d\n" % vid) * 6
                 ret = self._daemon().check_and_prune(ctxt, max_tokens=50, force=True)
             elif kind == "digest":
-                ret = lys.digest(op[1]) if op[1] is not None else lys.digest()
+                CALLED.add("digest")
+                if op[1] is None:
+                    ret = lys.digest()
+                elif len(op) > 2 and op[2] == "kw":
+                    KWARGS.add(("digest", "max_items"))
+                    ret = lys.digest(max_items=op[1])
+                else:
+                    ret = lys.digest(op[1])
             elif kind == "autophagy":
+                CALLED.add("autophagy")
                 ret = lys.autophagy()
             else:
                 raise ValueError(kind)
         except Exception as e:
             c["raised"] = e
-            self.problem("raises:" + kind, "%s raised %r" % (kind, e))
+            if verbose and isinstance(e, UnicodeEncodeError) and kind in INGEST_KINDS and not self.threaded and self.hostile:
+                # a name that the output stream cannot encode: the exception may propagate out of a non-silent call (it does on the
+                # unchanged tree); what is judged is the state it leaves behind
+                c["tolerated"] = True
+                self._bump("print_failures_tolerated")
+            else:
+                self.problem("raises:" + kind, "%s raised %r" % (kind, e))
         finally:
             self.cur.pop(me, None)
+            if verbose:
+                self._stdout_exit()
         self._judge_call(c, ret, before, now_v)
         return ret
 
@@ -863,24 +1318,47 @@ class Rig:
         digs = [e for e in c["events"] if e[0] == "dig"]
         tr = [list(c["op"]), "digested=%s" % [(e[1], e[2][0], e[2][1]) for e in digs]]
         if "raised" in c:
-            self.trace.append(tr + ["RAISED %r" % (c["raised"],)])
+            self.trace.append(tr + ["RAISED %s" % type(c["raised"]).__name__])
+            it = c.get("item")
+            if c.get("tolerated") and it is not None and not it.log and not any(w is it.waste for w in self.queue()) \
+                    and len(self.by_obj.get(id(it.waste), ())) == 1:
+                # the refused ingest left nothing behind: the item never entered (total_ingested must then not count it either)
+                self.items[it.vid] = None
+                del self.by_obj[id(it.waste)]
+                self._bump("refused_ingests_left_no_trace")
+            if n_odd_call_of(c):
+                self.odd_unknown += n_odd_call_of(c)
             return
+        n_odd_call = sum(1 for e in digs if e[2][1] == "odd")
         if kind == "digest":
             n_ok = sum(1 for e in digs if e[2][1] == "ok")
             n_r = sum(1 for e in digs if e[2][1] == "raise")
+            n_odd = n_odd_call
             tr.append("disposed=%r errors=%d" % (getattr(ret, "disposed", None), len(getattr(ret, "errors", []) or [])))
             self._bump("digest_results_judged")
             if ret is None or not hasattr(ret, "disposed"):
                 self.problem("digest-result-missing", "digest returned %r" % (ret,))
+                self.odd_unknown += n_odd
             else:
-                if ret.disposed != n_ok:
-                    self.problem("digest-result-disposed-mismatch", "digest(%r) reports disposed=%d but %d item(s) were digested without error in this call" % (c["op"][1], ret.disposed, n_ok))
-                if len(ret.errors) != n_r:
-                    self.problem("digest-error-unreported", "digest(%r): %d digester failure(s) in this call but DigestResult.errors lists %d" % (c["op"][1], n_r, len(ret.errors)))
-                if bool(ret.success) != (n_r == 0):
-                    self.problem("digest-result-success-flag", "digest(%r): success=%r with %d digester failure(s)" % (c["op"][1], ret.success, n_r))
+                n_err = len(ret.errors)
+                if n_odd:
+                    self._bump("digest_results_with_odd_digester_results")
+                if not (n_ok <= ret.disposed <= n_ok + n_odd):
+                    self.problem("digest-result-disposed-mismatch", "digest(%r) reports disposed=%d but %d item(s) were digested without error in this call%s" % (
+                        c["op"][1], ret.disposed, n_ok, (" (and %d digester(s) returned a non-dict)" % n_odd) if n_odd else ""))
+                if n_err < n_r or n_err > n_r + n_odd:
+                    self.problem("digest-error-unreported", "digest(%r): %d digester failure(s) in this call but DigestResult.errors lists %d" % (c["op"][1], n_r, n_err))
+                elif ret.disposed + n_err > n_ok + n_r + n_odd:
+                    self.problem("digest-item-counted-and-reported", "digest(%r) handled %d item(s) but reports disposed=%d and %d error(s): an item whose digester returned a "
+                                 "non-dict is counted as disposed AND listed as a digestion error" % (c["op"][1], n_ok + n_r + n_odd, ret.disposed, n_err))
+                elif ret.disposed + n_err < n_ok + n_r + n_odd:
+                    self.problem("digest-error-unreported", "digest(%r) handled %d item(s) but reports disposed=%d and %d error(s): an item is neither counted nor reported" % (
+                        c["op"][1], n_ok + n_r + n_odd, ret.disposed, n_err))
+                if bool(ret.success) != (n_err == 0):
+                    self.problem("digest-result-success-flag", "digest(%r): success=%r with %d reported error(s)" % (c["op"][1], ret.success, n_err))
                 if MARK in repr(ret.recycled):
                     self.problem("sensitive-in-recycling-bin", "DigestResult.recycled carries a sensitive marker: %s" % repr(ret.recycled)[:200])
+                self.odd_known += max(0, min(n_odd, ret.disposed - n_ok))
         elif kind in INGEST_KINDS:
             it = c.get("item")
             if it is None:
@@ -897,6 +1375,29 @@ class Rig:
                 left = self.queue()
                 if left and any(w == self.items[e[1]].waste for e in digs for w in left):
                     self._bump("ingest_digests_splitting_equal_wastes")
+            # digesters that returned a non-dict in this call: counted or reported/dropped, as the implementation chooses - read off the counter
+            if n_odd_call:
+                td0 = c.get("td0")
+                if td0 is None:
+                    self.odd_unknown += n_odd_call
+                else:
+                    n_ok_call = sum(1 for e in digs if e[2][1] == "ok")
+                    x = self.lys.get_statistics()["total_digested"] - td0 - n_ok_call
+                    if x < 0 or x > n_odd_call:
+                        self.problem("counter-total-digested", "%s: total_digested moved by %d during a call in which %d digester invocation(s) completed (%d of them returned a non-dict)" % (
+                            kind, x + n_ok_call, n_ok_call + n_odd_call, n_odd_call))
+                        x = max(0, min(n_odd_call, x))
+                    self.odd_known += x
+                    n_odd_auto = sum(1 for e in digs if e[2][1] == "odd" and e[2][0] == "auto")
+                    if n_odd_auto == n_odd_call and x < n_odd_call:
+                        # an auto-digested item that was not counted is a digestion error: it must be reported like a raising digester
+                        first_odd = min(i for i, e in enumerate(c["events"]) if e[0] == "dig" and e[2][1] == "odd")
+                        self._bump("auto_digest_failures_judged")
+                        logged = any(e[0] == "log" for e in c["events"][first_odd + 1:])
+                        returned = ret is not None and len(getattr(ret, "errors", []) or []) >= 1
+                        if not (logged or returned):
+                            self.problem("auto-digest-error-unreported", "%d item(s) whose digester returned a non-dict left the queue uncounted during the auto-digest triggered by %s "
+                                         "and nothing reports it (no log record, no result)" % (n_odd_call - x, kind))
             # a digester failure during the auto-digest must be reported: a WARNING+ record on the module logger
             # after the failure, or a result object with .errors returned to the caller
             last_auto_raise = max([i for i, e in enumerate(c["events"]) if e[0] == "dig" and e[2][0] == "auto" and e[2][1] == "raise"], default=None)
@@ -938,7 +1439,7 @@ class Rig:
                     item.expired = True
                     self._bump("items_expired")
                     age = now_v - item.created_ts
-                    if age < self.retention_s - EXPIRY_MARGIN_S:
+                    if age < self.retention_s - self.margin():
                         self.problem("autophagy-removes-unexpired", "autophagy removed item %d aged %.0f s with retention %.0f s" % (item.vid, age, self.retention_s))
                 if ret != len(removed):
                     self.problem("autophagy-return-mismatch", "autophagy returned %d but %d item(s) left the queue" % (ret, len(removed)))
@@ -974,7 +1475,7 @@ class Rig:
             inq[id(w)] = inq.get(id(w), 0) + 1
             if id(w) not in self.by_obj:
                 self.problem("queue-holds-unregistered-object", "the queue holds an object that never entered through ingest")
-        n_ok = n_raise = 0
+        n_ok = n_raise = n_odd = 0
         unaccounted = []
         for item in self.items:
             if item is None:
@@ -983,6 +1484,7 @@ class Rig:
             p = len(item.log)
             n_ok += sum(1 for e in item.log if e[1] == "ok")
             n_raise += sum(1 for e in item.log if e[1] == "raise")
+            n_odd += sum(1 for e in item.log if e[1] == "odd")
             x = 1 if item.expired else 0
             if len(grp) == 1:
                 q = inq.get(id(item.waste), 0)
@@ -1019,8 +1521,19 @@ class Rig:
             if item.sensitive:
                 q = inq.get(id(item.waste), 0)
                 self._bump("sensitive_items_judged")
-                if p >= 1 and item.toxic_cb == 0 and all(e[1] != "?" for e in item.log):
-                    self.problem("toxic-callback-missing", "sensitive item %d was processed (%s) but never reached the toxic callback" % (item.vid, item.log))
+                if p >= 1 and all(e[1] != "?" for e in item.log):
+                    for e in item.log:
+                        lab = e[2]
+                        if lab is None:
+                            continue        # no callback was configured when this invocation started: nothing to reach
+                        got = item.toxic_by.count(lab)
+                        if got == 0 and lab == "F":
+                            self.problem("toxic-callback-falsy-callable-skipped", "sensitive item %d was processed (%s) while on_toxic was a callable object whose bool() is False "
+                                         "(an empty collection with __call__): it was never called" % (item.vid, [x[:2] for x in item.log]))
+                        elif got == 0:
+                            self.problem("toxic-callback-missing", "sensitive item %d was processed (%s) but never reached the toxic callback%s" % (
+                                item.vid, [x[:2] for x in item.log], "" if not item.toxic_by and lab == "A" and self.cfg.get("toxic", "ctor") == "ctor" else
+                                " that was configured at that moment (%s; called: %s)" % (lab, item.toxic_by)))
                 if p == 0 and item.toxic_cb > 0:
                     self.problem("toxic-callback-premature", "sensitive item %d reached the toxic callback %d time(s) while %s" % (
                         item.vid, item.toxic_cb, "queued" if q else ("expired" if x else "unaccounted")))
@@ -1028,7 +1541,7 @@ class Rig:
             # thread mode: which call removed an item is not observable per call; autophagy's return values must cover the
             # unaccounted items, and those must really be past retention
             now_v = self.clock.time() if now_v is None else now_v
-            young = [i for i in unaccounted if now_v - i.created_ts < self.retention_s - EXPIRY_MARGIN_S]
+            young = [i for i in unaccounted if now_v - i.created_ts < self.retention_s - self.margin()]
             old = [i for i in unaccounted if i not in young]
             if len(old) == self.autophagy_unattributed:
                 for i in old:
@@ -1051,8 +1564,11 @@ class Rig:
         n_items = sum(1 for i in self.items if i is not None)
         if st["total_ingested"] != n_items:
             self.problem("counter-total-ingested", "total_ingested=%r but %d items entered" % (st["total_ingested"], n_items))
-        if st["total_digested"] != n_ok:
-            self.problem("counter-total-digested", "total_digested=%r but %d digester invocations completed without error (and %d raised)" % (st["total_digested"], n_ok, n_raise))
+        lo = n_ok + self.odd_known
+        hi = lo + self.odd_unknown
+        if not (lo <= st["total_digested"] <= hi) or st["total_digested"] > n_ok + n_odd:
+            self.problem("counter-total-digested", "total_digested=%r but %d digester invocations completed without error (and %d raised%s)" % (
+                st["total_digested"], n_ok, n_raise, "; %d returned a non-dict, of which %d..%d were counted" % (n_odd, self.odd_known, self.odd_known + self.odd_unknown) if n_odd else ""))
         self._bump("bin_scans")
         binrepr = repr(lys.get_recycled())
         if MARK in binrepr:
